@@ -102,6 +102,8 @@ func gcHas[K comparable, V any](m map[K]V, k K) bool { _, ok := m[k]; return ok 
 func gcSameArray[T any](a, b []T) bool { panic("govc-replay-unsupported: gcSameArray") }
 func gcSameStorage[T any](a, b []T) bool { panic("govc-replay-unsupported: gcSameStorage") }
 func gcWithin[T any](a, b []T) bool { panic("govc-replay-unsupported: gcWithin") }
+func gcU64(b []byte) []uint64 { panic("govc-replay-unsupported: gcU64") }
+func gcWfSlice[T any](a []T) bool { return true }
 `
 
 var reScriptPath = regexp.MustCompile(`script: (\S+)`)
